@@ -358,6 +358,15 @@ func (v View) RunPushTwice(kind string, k1, k2 int) (out [2][][2]int, ok bool) {
 func makeTestNumber(ver, kind string, raw, rep []int, exp int) (View, *Source, string) {
 	if kind == "Q" || kind == "S" || kind == "C" {
 		ctor := map[string]string{"Q": "FromBigRat", "S": "SqrtBigRat", "C": "CubeRootBigRat"}[kind]
+		// every constructor of the family takes its turn (the value, hence the model, is the same)
+		if kind != "Q" {
+			fam := map[string][]string{"S": {"Sqrt", "SqrtRat", "SqrtBigInt", "SqrtBigRat"}, "C": {"CubeRoot", "CubeRootRat", "CubeRootBigInt", "CubeRootBigRat"}}[kind]
+			if raw[1] == 1 {
+				ctor = fam[(raw[0]/2)%4]
+			} else {
+				ctor = fam[1+2*((raw[0]/2)%2)]
+			}
+		}
 		n := makeRoot(ver, ctor, big.NewInt(int64(raw[0])), big.NewInt(int64(raw[1])))
 		switch ver {
 		case "v1":
